@@ -106,10 +106,10 @@ pub fn scenario_cut(ctx: &mut Ctx) -> ScResult {
         let p = &m[..c];
         let r = g("C17", "Message::from_bytes", || Message::from_bytes(p).map(|_| ()))?;
         let r_try = g("C17", "Message::try_from", || Message::try_from(p).map(|_| ()))?;
-        if format!("{r:?}") != format!("{r_try:?}") {
-            return Err(Violation::new("C17", "prefix_reported_truncated", "Message::try_from", format!("prefix of {c} bytes: Message::from_bytes answers {r:?}, Message::try_from answers {r_try:?}")));
-        }
         let want_expected = if c < 20 { 20 } else { m.len() };
+        if !matches!(r_try, Err(StunParseError::Truncated { expected, actual }) if expected == want_expected && actual == c) {
+            return Err(Violation::new("C17", "prefix_reported_truncated", "Message::try_from", format!("prefix of {c} bytes of a well-formed {}-byte message through Message::try_from: expected Truncated {{ expected: {want_expected}, actual: {c} }}, got {r_try:?}", m.len())));
+        }
         match r {
             Err(StunParseError::Truncated { expected, actual }) if expected == want_expected && actual == c => {}
             other => {
@@ -294,12 +294,8 @@ fn crc_judge(ctx: &mut Ctx, orig: &[u8], x: &[u8], what: &str) -> ScResult {
     }
     let lib = g("C09", "Message::from_bytes", || Message::from_bytes(x).map(|_| ()))?;
     // the TryFrom<&[u8]> entry point is the same receiver
+    // the TryFrom<&[u8]> entry point is a receiver too (judged below by the same clauses, on its own)
     let via_try = g("C09", "Message::try_from", || Message::try_from(x).is_ok())?;
-    if via_try != lib.is_ok() {
-        let v = Violation::new("C09", "corruption_rejected", "Message::try_from", format!("corrupted buffer ({what}): Message::from_bytes {} it but Message::try_from {} it", if lib.is_ok() { "accepts" } else { "rejects" }, if via_try { "accepts" } else { "rejects" }));
-        ev!(ctx, "  !! {} orig={} mutant={}", v.message, hex(orig), hex(x));
-        return Err(v);
-    }
     let rf = refcodec::decode(x);
     ctx.st.cases += 1;
     // (iii) direct clause: a tolerant walk of the *whole* buffer still ends in a FINGERPRINT
@@ -307,6 +303,11 @@ fn crc_judge(ctx: &mut Ctx, orig: &[u8], x: &[u8], what: &str) -> ScResult {
     let fp_in_place = tiled && w.last().map(|a| a.ty == FP && a.len == 4).unwrap_or(false);
     if fp_in_place {
         ctx.st.inc("probe.corruption_left_fingerprint_in_place");
+        if via_try && !lib.is_ok() {
+            let v = Violation::new("C09", "corruption_rejected", "Message::try_from", format!("corrupted buffer ({what}) still carrying its FINGERPRINT was accepted by Message::try_from"));
+            ev!(ctx, "  !! {} orig={} mutant={}", v.message, hex(orig), hex(x));
+            return Err(v);
+        }
         if lib.is_ok() {
             let v = Violation::new("C09", "corruption_rejected", what, format!("corrupted buffer ({what}) still carrying its FINGERPRINT was accepted; reference verdict: {:?}", match &rf { Verdict::Accept(_) => "accept".to_string(), Verdict::Reject(c) => format!("{c:?}") }));
             ev!(ctx, "  !! {} orig={} mutant={}", v.message, hex(orig), hex(x));
@@ -666,9 +667,17 @@ pub fn scenario_tamper(ctx: &mut Ctx) -> ScResult {
             Err(_) => Err(true),
             Ok(msg) => msg.validate_integrity(&lc).map_err(|_| false),
         })?;
-        if r2.is_ok() != r.is_ok() {
-            let v = Violation::new("C04", "tamper_detected", "Message::try_from", format!("{what} at byte {pos}: verdict through Message::from_bytes is {r:?}, through Message::try_from {r2:?}"));
-            return Err(v);
+        // (judged on its own: only an Ok through try_from that the reference does not vouch for is a
+        // violation; the two entry points need not agree)
+        if let (Ok(a2), false) = (&r2, r.is_ok()) {
+            let legit2 = match refcodec::decode(x) {
+                Verdict::Accept(v2) => refcodec::ok_verdict_acceptable(&refcodec::integrity_status(x, &v2, &creds.reference()), &v2.exposed, Some(alg_type(*a2))),
+                _ => false,
+            };
+            if !legit2 {
+                let v = Violation::new("C04", "tamper_detected", "Message::try_from", format!("{what} at byte {pos}: through Message::try_from the parser accepted it and validation answered Ok({a2:?})"));
+                return Err(v);
+            }
         }
         ctx.st.cases += 1;
         match r {
@@ -915,7 +924,13 @@ pub fn scenario_tailsplice(ctx: &mut Ctx) -> ScResult {
     let Verdict::Accept(view) = refcodec::decode(&m) else {
         return Err(Violation::new("C10", "builder_output_wellformed", "reference_rejects", format!("reference decoder rejects the builder's output: {:?}", refcodec::decode(&m))));
     };
-    let fi = view.first_integrity.unwrap();
+    let Some(fi) = view.first_integrity else {
+        // the builder declined to seal (e.g. an empty password): nothing to rewrite
+        ctx.st.inc("probe.builder_declined_to_seal");
+        ctx.st.cases_nontrivial = ctx.st.cases;
+        ctx.st.nontrivial = true;
+        return Ok(());
+    };
     let cut = view.all[fi].off + 4 + refcodec::pad4(view.all[fi].len);
     let before = lib_view("C10", &m)?.unwrap_or_default();
     let prefix_exposed: Vec<(u16, Vec<u8>)> = before.iter().take(fi + 1).cloned().collect();
